@@ -10,6 +10,10 @@
 //!       body  raw:<bodyhex>:<sighex>:<nfds>   (MarshalledMessageBody::from_parts)
 //!             push:<item>,<item>,..           items y<n> u<n> t<n> s<hex> o<hex> h (descriptor) vu<n> (variant of u32) as<hex>;<hex>
 //!     -> B:<bodyhex>:<sighex>:<nfds> H:<headerhex|err> D:<decoded>
+//!   (an optional 14th argument X:<serial|->:<sighex|-|e>:<num_fds|-> of `m` sets dynheader.serial/signature/num_fds to stale values)
+//!   r <m args> <body2> <serial2>   marshal, decode, replace the DECODED message's body by body2, marshal with serial2 -> R:ok B:.. H:..
+//!   w <m args>                 send through a real connection (send_message_write_all), bytes read at the peer -> B:.. W:<hex|err>
+//!   g <hex>                    bytes written to the peer end of a fresh connection, RecvConn::get_next_message -> G:<err|ok fields N:ok:body:sig:nfds>
 //!   s <name> <args..>          a standard_messages constructor (then treated like `m`, serial = 1st arg)
 //!     -> M:<the message as an `m d` argument list> B:.. H:.. D:..
 //!   d <hex> <nfds>             decode bytes as get_next_message does (unmarshal_header, unmarshal_dynamic_header, unmarshal_next_message)
@@ -77,16 +81,18 @@ fn typ_no(t: MessageType) -> u8 {
     }
 }
 
-fn build_body(spec: &str, bo: ByteOrder) -> MarshalledMessageBody {
-    if let Some(r) = spec.strip_prefix("raw:") {
-        let p: Vec<&str> = r.split(':').collect();
-        let buf = unhex(p[0]);
-        let sig = String::from_utf8(unhex(p[1])).expect("utf8 sig");
-        let n: usize = p[2].parse().unwrap();
-        let fds = (0..n).map(|_| new_fd()).collect();
-        return MarshalledMessageBody::from_parts(buf, 0, fds, sig, bo);
-    }
-    let mut body = MarshalledMessageBody::with_byteorder(bo);
+fn raw_body(spec: &str, bo: ByteOrder) -> Option<MarshalledMessageBody> {
+    let r = spec.strip_prefix("raw:")?;
+    let p: Vec<&str> = r.split(':').collect();
+    let buf = unhex(p[0]);
+    let sig = String::from_utf8(unhex(p[1])).expect("utf8 sig");
+    let n: usize = p[2].parse().unwrap();
+    let fds = (0..n).map(|_| new_fd()).collect();
+    Some(MarshalledMessageBody::from_parts(buf, 0, fds, sig, bo))
+}
+
+/// push the items of a `push:` body spec INTO the given body (the body keeps its own byte order)
+fn push_items(body: &mut MarshalledMessageBody, spec: &str) {
     let items = spec.strip_prefix("push:").expect("body spec");
     for it in items.split(',') {
         if it.is_empty() {
@@ -114,6 +120,14 @@ fn build_body(spec: &str, bo: ByteOrder) -> MarshalledMessageBody {
             _ => panic!("bad body item"),
         }
     }
+}
+
+fn build_body(spec: &str, bo: ByteOrder) -> MarshalledMessageBody {
+    if let Some(b) = raw_body(spec, bo) {
+        return b;
+    }
+    let mut body = MarshalledMessageBody::with_byteorder(bo);
+    push_items(&mut body, spec);
     body
 }
 
@@ -213,7 +227,8 @@ fn msg_args(msg: &MarshalledMessage) -> String {
     )
 }
 
-fn op_m(p: &[&str]) -> String {
+/// the message described by the arguments of an `m` line, and the serial to marshal it with
+fn build_msg(p: &[&str]) -> (MarshalledMessage, u32) {
     let mode = p[0];
     let bo = if p[1] == "B" { ByteOrder::BigEndian } else { ByteOrder::LittleEndian };
     let typ = typ_of(p[2]);
@@ -258,8 +273,125 @@ fn op_m(p: &[&str]) -> String {
     msg.dynheader.sender = sender;
     msg.dynheader.error_name = err;
     msg.dynheader.response_serial = rs;
-    msg.body = build_body(p[12], bo);
+    // the body: pushed INTO the body the builder made (its byte order is the one chosen through the builder);
+    // only a hand-made body (from_parts) replaces it
+    match raw_body(p[12], bo) {
+        Some(b) => msg.body = b,
+        None => push_items(&mut msg.body, p[12]),
+    }
+    // stale header entries as a decoded / forwarded header carries them: the marshaller must not read them
+    if let Some(x) = p.get(13).and_then(|x| x.strip_prefix("X:")) {
+        let q: Vec<&str> = x.split(':').collect();
+        msg.dynheader.serial = if q[0] == "-" { None } else { NonZeroU32::new(q[0].parse().unwrap()) };
+        msg.dynheader.signature = ostr(q[1]);
+        msg.dynheader.num_fds = if q[2] == "-" { None } else { Some(q[2].parse().unwrap()) };
+    }
+    (msg, serial)
+}
+
+fn op_m(p: &[&str]) -> String {
+    let (msg, serial) = build_msg(p);
     marshal_and_back(&msg, serial)
+}
+
+/// marshal, decode, give the DECODED message a different body, marshal again with another serial
+fn op_r(p: &[&str]) -> String {
+    let (msg, serial) = build_msg(p);
+    let n = p.len();
+    let (body2, serial2): (&str, u32) = (p[n - 2], p[n - 1].parse().unwrap());
+    let mut buf = Vec::new();
+    if rustbus::wire::marshal::marshal(&msg, NonZeroU32::new(serial).unwrap(), &mut buf).is_err() {
+        return "R:first-marshal-err".to_string();
+    }
+    let mut all = buf.clone();
+    all.extend_from_slice(msg.get_buf());
+    let mut cursor = Cursor::new(&all);
+    let header = match unmarshal_header(&mut cursor) {
+        Ok(h) => h,
+        Err(_) => return "R:decode-err".to_string(),
+    };
+    let dynheader = match unmarshal_dynamic_header(&header, &mut cursor) {
+        Ok(h) => h,
+        Err(_) => return "R:decode-err".to_string(),
+    };
+    let used = cursor.consumed();
+    let fds: Vec<UnixFd> = (0..msg.body.get_fds().len()).map(|_| new_fd()).collect();
+    let mut back = match unmarshal_next_message(&header, dynheader, all.clone(), used, fds) {
+        Ok(m) => m,
+        Err(_) => return "R:decode-err".to_string(),
+    };
+    back.body = build_body(body2, back.body.byteorder());
+    let mut buf2 = Vec::new();
+    match rustbus::wire::marshal::marshal(&back, NonZeroU32::new(serial2).unwrap(), &mut buf2) {
+        Ok(()) => format!("R:ok {} H:{}", body_desc(&back), bhex(&buf2)),
+        Err(_) => format!("R:ok {} H:err", body_desc(&back)),
+    }
+}
+
+/// send the message through a real connection and read the bytes at the peer end
+fn op_w(p: &[&str]) -> String {
+    use std::io::Read;
+    let (mut msg, serial) = build_msg(p);
+    msg.dynheader.serial = NonZeroU32::new(serial);
+    let with_fd = !msg.body.get_fds().is_empty();
+    let (mut conn, mut peer) = connect_pair(with_fd);
+    peer.set_read_timeout(Some(std::time::Duration::from_secs(30))).unwrap();
+    match conn.send.send_message_write_all(&msg) {
+        Err(_) => format!("{} W:err", body_desc(&msg)),
+        Ok(_) => {
+            let mut h = vec![0u8; 16];
+            if peer.read_exact(&mut h).is_err() {
+                return format!("{} W:short", body_desc(&msg));
+            }
+            let u = |o: usize| {
+                let a = [h[o], h[o + 1], h[o + 2], h[o + 3]];
+                if h[0] == b'B' { u32::from_be_bytes(a) } else { u32::from_le_bytes(a) }
+            };
+            let rest = (u(12) as usize + 7) / 8 * 8 + u(4) as usize;
+            let mut r = vec![0u8; rest];
+            if peer.read_exact(&mut r).is_err() {
+                return format!("{} W:short", body_desc(&msg));
+            }
+            h.extend_from_slice(&r);
+            // nothing else may be on the wire
+            peer.set_nonblocking(true).unwrap();
+            let mut extra = [0u8; 1];
+            let more = matches!(peer.read(&mut extra), Ok(n) if n > 0);
+            format!("{} W:{}{}", body_desc(&msg), bhex(&h), if more { " EXTRA" } else { "" })
+        }
+    }
+}
+
+/// the bytes are written to the peer end of a fresh connection (then the peer stops writing);
+/// RecvConn::get_next_message decodes them
+fn op_g(bytes: &[u8]) -> String {
+    let (mut conn, mut peer) = connect_pair(false);
+    if !bytes.is_empty() {
+        peer.write_all(bytes).unwrap();
+        peer.flush().unwrap();
+    }
+    peer.shutdown(std::net::Shutdown::Write).unwrap();
+    match conn.recv.get_next_message(Timeout::Duration(std::time::Duration::from_secs(30))) {
+        Err(_) => "G:err".to_string(),
+        Ok(m) => format!(
+            "G:ok t:{} f:{} rs:{} i:{} d:{} sn:{} m:{} p:{} e:{} g:{} fd:{} dser:{} N:ok:{}:{}:{}",
+            typ_no(m.typ),
+            m.flags,
+            m.dynheader.response_serial.map(|x| x.get().to_string()).unwrap_or("-".into()),
+            shex(&m.dynheader.interface),
+            shex(&m.dynheader.destination),
+            shex(&m.dynheader.sender),
+            shex(&m.dynheader.member),
+            shex(&m.dynheader.object),
+            shex(&m.dynheader.error_name),
+            shex(&m.dynheader.signature),
+            m.dynheader.num_fds.map(|x| x.to_string()).unwrap_or("-".into()),
+            m.dynheader.serial.map(|x| x.get().to_string()).unwrap_or("-".into()),
+            bhex(m.get_buf()),
+            bhex(m.get_sig().as_bytes()),
+            m.body.get_fds().len()
+        ),
+    }
 }
 
 fn op_s(p: &[&str]) -> String {
@@ -341,6 +473,9 @@ fn main() {
         let parts: Vec<&str> = line.split(' ').collect();
         let r = match parts[0] {
             "m" => op_m(&parts[1..]),
+            "r" => op_r(&parts[1..]),
+            "w" => op_w(&parts[1..]),
+            "g" => op_g(&unhex(parts[1])),
             "s" => op_s(&parts[1..]),
             "d" => format!("D:{}", decode(&unhex(parts[1]), parts.get(2).map(|x| x.parse().unwrap()).unwrap_or(0))),
             "n" => op_n(&unhex(parts[1])),
